@@ -459,6 +459,9 @@ _add('C02', 'DeeprobModel.Props.E2ECltLoop', 'Deeprob.E2ECltLoop', ['loopMp_mess
 _add('C06', _O + 'Struct5Clt', 'Deeprob.Oblig.Struct5Clt', _S5C, ['cltree.message_passing.loop', 'cltree.mpe.loop'])
 _add('C06', 'DeeprobModel.Props.E2ECltLoop', 'Deeprob.E2ECltLoop', ['loopMpe_eq', 'e2e_message_passing_max_loop', 'e2e_mpe_is_argmax_loop'], [])
 _add('C07', _O + 'Struct5Clt', 'Deeprob.Oblig.Struct5Clt', [], ['cltree.sample.loop'])
+_add('C07', _O + 'Struct5CltSample', 'Deeprob.Oblig.Struct5CltSample', ['sample_loop_as_coded'], ['cltree.sample.loop', 'cltree.message_passing.loop'])
+_add('C07', 'DeeprobModel.Props.E2ECltSample', 'Deeprob.E2ECltSample', ['loopSampleLaw_as_coded', 'draw_is_localCond', 'fold_steps', 'samplePmf_as_product', 'mar_slots',
+                                                                       'e2e_sample_loop_law_of_defined', 'e2e_sample_loop_law'], [])
 _add('C10', _O + 'Struct5Rewrite', 'Deeprob.Oblig.Struct5Rewrite', ['margPassLoop_shape_partial', 'margPassLoop_not_dag'], ['structure.marginalize.loop'])
 _add('C10', 'DeeprobModel.Props.E2ERewriteLoop', 'Deeprob.E2ERewriteLoop', ['mgLoopMarginalize_eq', 'e2e_marginalize_loop_partial'], [])
 _add('C09', _O + 'Struct5Rewrite', 'Deeprob.Oblig.Struct5Rewrite', [], ['structure.prune.loop'])
